@@ -8,7 +8,7 @@ src = os.path.abspath(sys.argv[1])
 label = sys.argv[2] if len(sys.argv) > 2 else os.path.basename(src.rstrip('/'))
 dst = os.path.join(V, 'benign', label)
 os.makedirs(dst, exist_ok=True)
-resf = os.path.join(V, 'benign', 'results.json')
+resf = os.path.join(V, 'benign', os.environ.get('BENIGN_RESULTS', 'results.json'))
 results = json.load(open(resf)) if os.path.exists(resf) else {}
 props = [c['property_id'] for c in json.load(open(os.path.join(V, 'MANIFEST.json')))['checks']]
 only = sys.argv[3:] 
